@@ -9,8 +9,9 @@ from ..src import rename_id, AnalysisError, loc, norm, own_nodes
 
 RUNNER = "tdgl.solver.runner"
 SOLVER = "tdgl.solver.solver"
-TECH = ("acquire/release pairing on exception edges of the statement CFG, context-manager discipline, who-may-open audit of "
-        "every h5py.File call, exit discipline of the interrupt handler, create-then-fill rule for frame groups")
+TECH = ("predicates on traces: the output-file protocol of DataHandler followed against a model file system, the simulation loop followed with "
+        "interrupts injected in the n-th update / save; context-manager discipline; open-mode audit over the call graph; create-then-fill rule on the "
+        "CFG of the frame writer; who-may-swallow audit of exception handlers")
 
 
 def is_acquire(s: ast.stmt):
